@@ -52,9 +52,13 @@ let gen_commits (g : sx) : (z list * z list) list =
       let cf k s = List.mapi (fun j ch -> let c = Char.code ch in
                       z_of_int (if (k + j) mod 3 = 0 && c >= 97 && c <= 122 then c - 32 else c))
                      (List.init (String.length s) (String.get s)) in
+      (* the strings are shared: one list per (text, phase of the case pattern) *)
+      let memo = Hashtbl.create 4096 in
+      let cfm k s = match Hashtbl.find_opt memo (k mod 3, s) with
+        | Some l -> l | None -> let l = cf (k mod 3) s in Hashtbl.replace memo (k mod 3, s) l; l in
       let rec go i acc = if i < 0 then acc else
-          go (i - 1) ((cf i (string_of_int (i mod p) ^ "name"),
-                       cf (i + 1) (string_of_int ((i * 7 + i / p) mod q) ^ "m@x.org")) :: acc) in
+          go (i - 1) ((cfm i (string_of_int (i mod p) ^ "name"),
+                       cfm (i + 1) (string_of_int ((i * 7 + i / p) mod q) ^ "m@x.org")) :: acc) in
       go (n - 1) []
   | _ -> failwith "gen"
 
@@ -70,7 +74,23 @@ let rotations l =
 
 let big_limit = 3000       (* above: no quadratic extracted oracle, per-commit loops instead *)
 
-let gen_case id c =
+let rec gen_case id c =
+  match field_opt "verdict" (field "obs" c) with
+  | Some v ->
+      (* judged inside the harness (scale-many with 2^17 developers and more) *)
+      count "gen_scale_judged_in_harness";
+      (match args v with
+       | [A "ok"] -> ()
+       | A "fail" :: what :: _ ->
+           propfail id ((match atom what with
+             | "total" -> "total: an author of the list does not resolve to an index below the number of developers"
+             | "same-email" -> "same-email: two commits with the same e-mail / signature (case-insensitively) resolve to different developers"
+             | "panic" -> "GeneratePeopleDict/Consume panics on a non-empty commit list"
+             | w -> "description: a developer's description does not list exactly the names and e-mails attached to it (" ^ w ^ ")")
+             ^ " [judged in the harness: " ^ string_of_sx v ^ " " ^ string_of_sx (field "gen" c) ^ "]")
+       | _ -> failwith "verdict")
+  | None -> gen_case_replayed id c
+and gen_case_replayed id c =
   let exact = bool_of_sx (List.hd (args (field "exact" c))) in
   let cs = match field_opt "gen" c with
     | Some g -> gen_commits g
@@ -92,7 +112,7 @@ let gen_case id c =
   let norm_mm l = List.sort compare (List.map (fun (k, (n, e)) -> (ints k, ints n, ints e)) l) in
   (match mparse, gmm, gmm_panic with
    | None, None, false -> ()
-   | Some None, None, true -> count "mailmap_parse_panics"
+   | Some None, None, true -> mismatch id "ParseMailmap: model and implementation panic (the repaired function never does)"
    | Some (Some m), Some g, false ->
        count "mailmap_parsed";
        if g <> [] then count "mailmap_nonempty";
@@ -114,9 +134,8 @@ let gen_case id c =
   if field_opt "panic" obs <> None then begin
     if ncs = 0 then begin
       match model_with [] with None -> count "gen_panic_empty_list" | Some _ -> mismatch id "implementation panics on the empty list, the model does not"
-    end else if expect_parse_panic then
-      propfail id ("GeneratePeopleDict panics on a non-empty commit list: ParseMailmap slices line[:-1] on a line that ends in \">\" and has no \"<\" before it [mailmap-parse-panic]" ^ where)
-    else propfail id ("GeneratePeopleDict/Consume panics on a non-empty commit list" ^ where)
+    end else propfail id ("GeneratePeopleDict/Consume panics on a non-empty commit list" ^
+                          (if expect_parse_panic then " (in ParseMailmap)" else "") ^ where)
   end else if ncs = 0 then mismatch id "model panics (empty commit list), implementation does not"
   else if expect_parse_panic then mismatch id ("ParseMailmap panics but GeneratePeopleDict does not" ^ where)
   else List.iter (fun run ->
@@ -245,11 +264,96 @@ let show_idx idx = String.concat " " (List.map (fun (k, ((f, a), b)) ->
 
 let rec nodup = function [] -> true | x :: r -> not (List.mem x r) && nodup r
 
+(* Large pairs of lists (more than 80 identities): the extracted model and oracles are of high polynomial degree, so the
+   merge half of the property is stated here with hash tables and union-find: total, pointers, same Final <-> connected,
+   merged description = union of the parts of its members; the literal merge: index / pointers / merged list. *)
+let ostr (l : z list) = let b = Buffer.create 16 in List.iter (fun z -> Buffer.add_char b (Char.chr (int_of_z z land 255))) l; Buffer.contents b
+let big_merge_case id rd1 rd2 obs =
+  let a1 = Array.of_list (tmap ostr rd1) and a2 = Array.of_list (tmap ostr rd2) in
+  let n1 = Array.length a1 and n2 = Array.length a2 in
+  let parts s = String.split_on_char '|' s in
+  let dom_list a =
+    let owner = Hashtbl.create 1024 and ok = ref true in
+    Array.iteri (fun i s -> List.iter (fun p -> match Hashtbl.find_opt owner p with
+      | Some j when j <> i -> ok := false | _ -> Hashtbl.replace owner p i) (parts s)) a; !ok in
+  let dom = dom_list a1 && dom_list a2 in
+  count (if dom then "merge_in_domain" else "merge_f7_domain");
+  count "merge_scale_case";
+  let sfx = if dom then "" else " [F7-domain: a part occurs in two entries of one input list]" in
+  let ok = ref true in
+  let fail what = if !ok then begin ok := false; propfail id (what ^ sfx) end in
+  let pos1 = Hashtbl.create 1024 and pos2 = Hashtbl.create 1024 in
+  Array.iteri (fun i s -> Hashtbl.replace pos1 s i) a1; Array.iteri (fun i s -> Hashtbl.replace pos2 s i) a2;
+  let table gidx = let t = Hashtbl.create 1024 in
+    List.iter (fun (k, ((f, a), b)) -> Hashtbl.replace t (ostr k) (int_of_z f, int_of_z a, int_of_z b)) gidx; t in
+  let total_pointers name t nmerged =
+    let chk s = match Hashtbl.find_opt t s with
+      | None -> fail (name ^ "-total: the input identity \"" ^ String.escaped s ^ "\" has no merged index")
+      | Some (f, a, b) ->
+          if f < 0 || f >= nmerged then fail (name ^ "-total: merged index out of range for \"" ^ String.escaped s ^ "\"");
+          let e1 = (match Hashtbl.find_opt pos1 s with Some i -> i | None -> -1)
+          and e2 = (match Hashtbl.find_opt pos2 s with Some i -> i | None -> -1) in
+          if a <> e1 || b <> e2 then
+            fail (Printf.sprintf "%s-pointers: \"%s\" has First/Second = %d/%d, its positions are %d/%d" name (String.escaped s) a b e1 e2) in
+    Array.iter chk a1; Array.iter chk a2;
+    Hashtbl.iter (fun k _ -> if not (Hashtbl.mem pos1 k || Hashtbl.mem pos2 k) then
+                     fail (name ^ "-total: the key \"" ^ String.escaped k ^ "\" is not an input identity")) t in
+  (match mres_of_sx (field "ident" obs) with
+   | MPanic -> fail "MergeReversedDictsIdentities panics"
+   | MOk (gidx, gmerged) ->
+       if not (bool_of_sx (List.hd (args (field "agree" obs)))) then fail "merge: answers differ between runs on equal inputs";
+       let t = table gidx and merged = Array.of_list (tmap ostr gmerged) in
+       total_pointers "merge" t (Array.length merged);
+       if dom && !ok then begin
+         (* union-find over the n1 + n2 entries, joined through their parts *)
+         let uf = Array.init (n1 + n2) (fun i -> i) in
+         let rec find i = if uf.(i) = i then i else begin let r = find uf.(i) in uf.(i) <- r; r end in
+         let owner = Hashtbl.create 1024 in
+         let visit i s = List.iter (fun p -> match Hashtbl.find_opt owner p with
+           | Some j -> uf.(find i) <- find j | None -> Hashtbl.replace owner p i) (parts s) in
+         Array.iteri visit a1; Array.iteri (fun j s -> visit (n1 + j) s) a2;
+         let comp_final = Hashtbl.create 1024 and final_comp = Hashtbl.create 1024 and final_parts = Hashtbl.create 1024 in
+         let node i s =
+           let f = (match Hashtbl.find_opt t s with Some (f, _, _) -> f | None -> -1) and r = find i in
+           (match Hashtbl.find_opt comp_final r with
+            | Some f' -> if f' <> f then fail ("merge-components: connected identities have different merged indexes (\"" ^ String.escaped s ^ "\")")
+            | None -> Hashtbl.replace comp_final r f);
+           (match Hashtbl.find_opt final_comp f with
+            | Some r' -> if r' <> r then fail ("merge-components: identities that are not connected share a merged index (\"" ^ String.escaped s ^ "\")")
+            | None -> Hashtbl.replace final_comp f r);
+           List.iter (fun p -> Hashtbl.replace final_parts (f, p) ()) (parts s) in
+         Array.iteri node a1; Array.iteri (fun j s -> node (n1 + j) s) a2;
+         let nparts = ref 0 in
+         Array.iteri (fun w m ->
+             let ps = parts m in
+             let seen = Hashtbl.create 16 in
+             List.iter (fun p ->
+                 if Hashtbl.mem seen p then fail ("merge-union: a part occurs twice in the merged description \"" ^ String.escaped m ^ "\"");
+                 Hashtbl.replace seen p ();
+                 if not (Hashtbl.mem final_parts (w, p)) then fail ("merge-union: the merged description \"" ^ String.escaped m ^ "\" has a part of no member");
+                 incr nparts) ps) merged;
+         if !nparts <> Hashtbl.length final_parts then fail "merge-union: a part of a member is missing from the merged description";
+         if Hashtbl.length final_comp <> Array.length merged then fail "merge-union: a merged description without members";
+         if !ok && Array.length merged < n1 + n2 then count "merge_really_merging"
+       end);
+  (match mres_of_sx (field "lit" obs) with
+   | MPanic -> if dom then propfail id "MergeReversedDictsLiteral panics on duplicate-free lists"
+   | MOk (gidx, gmerged) ->
+       if dom then begin
+         count "literal_in_domain";
+         let t = table gidx and merged = Array.of_list (tmap ostr gmerged) in
+         total_pointers "literal" t (Array.length merged);
+         Hashtbl.iter (fun k (f, _, _) -> if f >= 0 && f < Array.length merged && merged.(f) <> k then
+                          fail ("literal: merged[Final] is not the string \"" ^ String.escaped k ^ "\"")) t;
+         if Array.length merged <> Hashtbl.length t then fail "literal: the merged list and the index differ in size"
+       end)
+
 let merge_case id c =
   let ids = args (field "ids" c) in
-  let pick t = List.filter_map (fun x -> if tag x = t then Some (zstr (List.hd (args x))) else None) ids in
+  let pick t = List.rev (List.fold_left (fun acc x -> if tag x = t then zstr (List.hd (args x)) :: acc else acc) [] ids) in
   let rd1 = pick "a" and rd2 = pick "b" in
   let obs = field "obs" c in
+  if List.length rd1 + List.length rd2 > 80 then big_merge_case id rd1 rd2 obs else
   let dom = merge_domb rd1 rd2 in
   count (if dom then "merge_in_domain" else "merge_f7_domain");
   let sfx = if dom then "" else " [F7-domain: a part occurs in two entries of one input list]" in
